@@ -30,11 +30,13 @@ func TestPinnedFindings(t *testing.T) {
 		{Op: "crypto.DecryptSymmetric", Alg: "C20P", Mode: "ok", Len: 5, Spare: []int{16}},
 		{Op: "crypto.Decrypt", Alg: "XC20PKW", Mode: "tamper", Len: 32, Spare: []int{3}},
 	} {
-		msg, st := checkMem(c)
-		if msg != "" {
-			t.Fatalf("C17 caller memory violated: %s\ncase: %s", msg, c)
+		for _, c.Mem = range memKinds {
+			msg, st := checkMem(c)
+			if msg != "" {
+				t.Fatalf("C17 caller memory violated: %s\ncase: %s", msg, c)
+			}
+			sec.Case(st.nontrivial, c.fp(), st.classes...)
+			sec.Sample(func() any { return c.String() })
 		}
-		sec.Case(st.nontrivial, c.fp(), st.classes...)
-		sec.Sample(func() any { return c.String() })
 	}
 }
